@@ -92,6 +92,11 @@ PARAMSETS = {
     '3_13': {'BBS': '8192', 'BPS': '524288', 'N': '3', 'CW': '13', 'WPB': '128', 'WPS': '16', 'NSUB': '8'},
     # the four adaptive selection structures share one look-up (unit select.lookup)
     'adapt': {'P_EXPECT': r'/fn log2_ones_per_sub32/', 'P_STRUCT': 'SelectAdapt', 'P_MODULE': 'select_adapt', 'P_FN': 'select_unchecked', 'P_HINTED': 'select_hinted',
+              'P2_FN': 'rank_sel::select_adapt | impl<B: AsRef<[usize]> + BitCount> SelectAdapt<B, Box<[usize]>> | _new', 'P2_LABEL': 'SelectAdapt::_new (second phase)',
+              'P2_DIRS': '    //@ fsubst /fn _new\\(bits: B, num_ones: usize, log2_ones_per_inventory: usize,\\s*max_log2_u64_per_subinventory: usize\\)/ => fn _new(bits: BitVec, num_ones: usize, log2_ones_per_inventory: usize, max_log2_u64_per_subinventory: usize, log2_u64_per_subinventory: usize, log2_ones_per_sub16: usize, ones_per_inventory: usize, ones_per_inventory_mask: usize, ones_per_sub16_mask: usize, u64_per_subinventory: usize, u64_per_inventory: usize, inventory_size: usize, inventory0: Vec<usize>, mut spilled: usize)\n    //@ fsubst /<B: AsRef<\\[usize\\]> \\+ BitCount>/ => <empty>',
+              'P2_REQ': 'phase1_post(bits, num_ones, log2_ones_per_inventory, max_log2_u64_per_subinventory, inventory0@, log2_u64_per_subinventory, log2_ones_per_sub16, ones_per_inventory, ones_per_inventory_mask, ones_per_sub16_mask, u64_per_subinventory, u64_per_inventory, inventory_size),',
+              'P2_MVAR': 'log2_u64_per_subinventory', 'P2_START': '', 'P2_INV': 'true,',
+              'P2_MK': 'SelectAdapt { bits, inventory: inv, spill: sp, log2_ones_per_inventory: l, log2_ones_per_sub16: s16, log2_u64_per_subinventory: m, ones_per_inventory_mask: k1, ones_per_sub16_mask: k2 }',
               'P_RK': 'rank_spec(bits, p)', 'P_BIT': 'bit_at(bits, p)', 'P_GEN': '', 'P_TARGS': '',
               'P_L': 'self.log2_ones_per_inventory', 'P_M': 'self.log2_u64_per_subinventory', 'P_S16': 'self.log2_ones_per_sub16',
               'P_MASKS': 'self.ones_per_inventory_mask == (1usize << self.log2_ones_per_inventory) - 1 && self.ones_per_sub16_mask == (1usize << self.log2_ones_per_sub16) - 1',
@@ -104,6 +109,12 @@ PARAMSETS = {
               'P_HDR': r'/SelectZeroUnchecked for SelectZeroAdapt<B, I>/',
               'P_HDR32': 'impl<B, I> SelectZeroAdapt<B, I>', 'P_S32REQ': 'true', 'P_S32ARGS': 'span, log2_ones_per_sub16', 'P_S32S16': 'log2_ones_per_sub16'},
     'adapt_const': {'P_EXPECT': r'/const LOG2_ONES_PER_SUB16: usize =\s*LOG2_ONES_PER_INVENTORY\.saturating_sub\(LOG2_U64_PER_SUBINVENTORY\s*\+ 2\);\s*const ONES_PER_SUB16_MASK: usize =\s*\(1 << Self::LOG2_ONES_PER_SUB16\) - 1;\s*const ONES_PER_INVENTORY: usize = \(1 << LOG2_ONES_PER_INVENTORY\);\s*const ONES_PER_INVENTORY_MASK: usize =\s*\(1 << LOG2_ONES_PER_INVENTORY\) - 1;/', 'P_STRUCT': 'SelectAdaptConst', 'P_MODULE': 'select_adapt_const', 'P_FN': 'select_unchecked', 'P_HINTED': 'select_hinted',
+              'P2_FN': 'rank_sel::select_adapt_const | /SelectAdaptConst<B, Box<\\[usize\\]>, LOG2_ONES_PER_INVENTORY/ | new', 'P2_LABEL': 'SelectAdaptConst::new (second phase)',
+              'P2_DIRS': '    //@ fsubst /pub fn new\\(bits: B\\) -> Self/ => pub fn new(bits: BitVec, num_ones: usize, u64_per_subinventory: usize, u64_per_inventory: usize, inventory_size: usize, inventory0: Vec<usize>, mut spilled: usize) -> Self',
+              'P2_REQ': 'phase1_post(bits, num_ones, LOG2_ONES_PER_INVENTORY, LOG2_U64_PER_SUBINVENTORY, inventory0@, LOG2_U64_PER_SUBINVENTORY, sat_sub(LOG2_ONES_PER_INVENTORY, (LOG2_U64_PER_SUBINVENTORY + 2) as usize), 1usize << LOG2_ONES_PER_INVENTORY, ((1usize << LOG2_ONES_PER_INVENTORY) - 1) as usize, ((1usize << sat_sub(LOG2_ONES_PER_INVENTORY, (LOG2_U64_PER_SUBINVENTORY + 2) as usize)) - 1) as usize, u64_per_subinventory, u64_per_inventory, inventory_size),',
+              'P2_MVAR': 'LOG2_U64_PER_SUBINVENTORY', 'P2_INV': 'log2_ones_per_inventory == LOG2_ONES_PER_INVENTORY, log2_u64_per_subinventory == LOG2_U64_PER_SUBINVENTORY,',
+              'P2_START': '        let log2_ones_per_inventory: usize = LOG2_ONES_PER_INVENTORY; let log2_u64_per_subinventory: usize = LOG2_U64_PER_SUBINVENTORY;\n        let log2_ones_per_sub16: usize = LOG2_ONES_PER_INVENTORY.saturating_sub(LOG2_U64_PER_SUBINVENTORY + 2);\n        let ones_per_inventory: usize = 1usize << LOG2_ONES_PER_INVENTORY;\n        let ghost ones_per_inventory_mask: usize = ((1usize << LOG2_ONES_PER_INVENTORY) - 1) as usize; let ghost ones_per_sub16_mask: usize = ((1usize << log2_ones_per_sub16) - 1) as usize;',
+              'P2_MK': 'SelectAdaptConst { bits, inventory: inv, spill: sp }',
               'P_RK': 'rank_spec(bits, p)', 'P_BIT': 'bit_at(bits, p)',
               'P_GEN': '<const LOG2_ONES_PER_INVENTORY: usize, const LOG2_U64_PER_SUBINVENTORY: usize>', 'P_TARGS': ', LOG2_ONES_PER_INVENTORY, LOG2_U64_PER_SUBINVENTORY',
               'P_L': 'LOG2_ONES_PER_INVENTORY', 'P_M': 'LOG2_U64_PER_SUBINVENTORY', 'P_S16': 'sat_sub(LOG2_ONES_PER_INVENTORY, (LOG2_U64_PER_SUBINVENTORY + 2) as usize)',
